@@ -226,7 +226,10 @@ func c21Incoming(p rt.Params, rep *rt.Reporter, ci int) {
 		case x < 16:
 			if i := pick(waiting); i >= 0 {
 				reqs[i].cancelled = true
-				_ = R.GS.Cancel(apiCtx, reqs[i].id)
+				id := reqs[i].id
+				if !w.Call(func() { _ = R.GS.Cancel(apiCtx, id) }) {
+					inc = "responder Cancel call did not return"
+				}
 				op = fmt.Sprintf("responder-cancel-queued(#%d)", i)
 			}
 		case x < 17:
@@ -238,7 +241,10 @@ func c21Incoming(p rt.Params, rep *rt.Reporter, ci int) {
 		case x < 18:
 			if i := pick(running); i >= 0 {
 				reqs[i].cancelled = true
-				_ = R.GS.Cancel(apiCtx, reqs[i].id)
+				id := reqs[i].id
+				if !w.Call(func() { _ = R.GS.Cancel(apiCtx, id) }) {
+					inc = "responder Cancel call did not return"
+				}
 				op = fmt.Sprintf("responder-cancel-running(#%d)", i)
 			}
 		default:
@@ -247,7 +253,10 @@ func c21Incoming(p rt.Params, rep *rt.Reporter, ci int) {
 			i := newReq(pi)
 			reqs[i].cancelled = true
 			if r.Intn(2) == 0 {
-				_ = R.GS.Cancel(apiCtx, reqs[i].id)
+				id := reqs[i].id
+				if !w.Call(func() { _ = R.GS.Cancel(apiCtx, id) }) {
+					inc = "responder Cancel call did not return"
+				}
 				op = fmt.Sprintf("push+responder-cancel(P%d #%d)", pi, i)
 			} else {
 				_ = RawSend(peers[pi], R.ID, gsmsg.NewCancelRequest(reqs[i].id))
